@@ -295,8 +295,16 @@ func (s *AbsfsNFS) SetAttr(node *NFSNode, attrs *NFSAttrs) error {
 		}
 	}
 
-	// Update attrs with lock protection
+	// Update attrs with lock protection. SETATTR changes permission bits,
+	// ownership and times only: the object's type, fileid and size stay what
+	// the node already records (the handlers read their directory and symlink
+	// tests from node.attrs).
 	node.mu.Lock()
+	if node.attrs != nil {
+		attrs.Mode = (node.attrs.Mode &^ os.ModePerm) | (attrs.Mode & os.ModePerm)
+		attrs.FileId = node.attrs.FileId
+		attrs.Size = node.attrs.Size
+	}
 	node.attrs = attrs
 	node.attrs.Refresh() // Initialize cache validity
 	node.mu.Unlock()
